@@ -3,8 +3,23 @@
    of observations lying beneath label n + j, i.e. carried to that label by the first j + 1
    steps; more generally every label in use carries exactly `csize` observations. *)
 Require Import KV.Model.Prelude KV.Model.Dendrogram KV.Proofs.RelabelWF KV.Proofs.DendUnique.
+From Coq Require Import Bool.
 
 Set Implicit Arguments.
+
+Lemma firstn_in_nth {A} (l : list A) : forall j x, In x (firstn j l) -> exists k, k < j /\ nth_error l k = Some x.
+Proof.
+  induction l as [|a l IH]; intros j x H; [destruct j; destruct H|].
+  destruct j as [|j]; [destruct H|]. cbn [firstn] in H. destruct H as [<-|H]; [exists 0; split; [lia|reflexivity]|].
+  destruct (IH j x H) as (k & Hk & Hn). exists (S k). split; [lia|exact Hn].
+Qed.
+
+Lemma nodup_app {A} (l l' : list A) : NoDup l -> NoDup l' -> (forall x, In x l -> In x l' -> False) -> NoDup (l ++ l').
+Proof.
+  induction 1 as [|a l Ha Hnd IH]; intros Hnd' Hdis; [exact Hnd'|]. cbn [app]. constructor.
+  - intros Hin. apply in_app_or in Hin. destruct Hin as [Hin|Hin]; [exact (Ha Hin)|exact (Hdis a (or_introl eq_refl) Hin)].
+  - apply IH; [exact Hnd'|]. intros x Hx. apply Hdis. right. exact Hx.
+Qed.
 
 Section Sizes.
 Variable T : Type.
@@ -86,6 +101,102 @@ Proof.
   rewrite (@members_csize (S j) ltac:(lia) (n + j)).
   - unfold csize. destruct (Nat.ltb_spec (n + j) n); [lia|]. replace (n + j - n) with j by lia. rewrite Ht. reflexivity.
   - split; [lia|]. intros i t' Hi Ht'. destruct W as [_ Hw]. destruct (Hw i t' Ht') as (H1 & H2 & _). lia.
+Qed.
+
+(* ---- "hence every label in [0, 2n-2) is consumed exactly once, the last step has size n" ---- *)
+Definition used : list nat := flat_map (fun t => [s_c1 t; s_c2 t]) D.
+
+Lemma used_firstn_bound : forall k, k <= length D -> forall l, In l (flat_map (fun t => [s_c1 t; s_c2 t]) (firstn k D)) -> l < n + k - 1.
+Proof.
+  destruct W as [_ Hw]. induction k as [|k IH]; intros Hk l Hl; [destruct Hl|].
+  destruct (nth_error D k) as [t|] eqn:Ht; [|apply nth_error_None in Ht; lia].
+  assert (E : firstn (S k) D = firstn k D ++ [t]).
+  { clear - Ht. revert k Ht. induction D as [|a l IHl]; intros k Ht; [destruct k; discriminate|].
+    destruct k as [|k]; cbn [nth_error] in Ht; [inversion Ht; reflexivity|]. cbn [firstn app]. f_equal. apply IHl. exact Ht. }
+  rewrite E, flat_map_app in Hl. apply in_app_or in Hl. destruct Hl as [Hl|Hl].
+  - pose proof (IH ltac:(lia) l Hl). lia.
+  - destruct (Hw k t Ht) as (H1 & H2 & _). cbn [flat_map app] in Hl. destruct Hl as [<-|[<-|[]]]; lia.
+Qed.
+
+Lemma used_nodup : NoDup used.
+Proof.
+  destruct W as [_ Hw]. unfold used.
+  assert (G : forall k, k <= length D -> NoDup (flat_map (fun t => [s_c1 t; s_c2 t]) (firstn k D))).
+  { induction k as [|k IH]; intros Hk; [constructor|].
+    destruct (nth_error D k) as [t|] eqn:Ht; [|apply nth_error_None in Ht; lia].
+    assert (E : firstn (S k) D = firstn k D ++ [t]).
+    { clear - Ht. revert k Ht. induction D as [|a l IHl]; intros k Ht; [destruct k; discriminate|].
+      destruct k as [|k]; cbn [nth_error] in Ht; [inversion Ht; reflexivity|]. cbn [firstn app]. f_equal. apply IHl. exact Ht. }
+    rewrite E, flat_map_app. cbn [flat_map app].
+    destruct (Hw k t Ht) as (H1 & H2 & H3 & _).
+    assert (Hfresh : forall l, In l (flat_map (fun t0 => [s_c1 t0; s_c2 t0]) (firstn k D)) -> l <> s_c1 t /\ l <> s_c2 t).
+    { intros l Hl. apply in_flat_map in Hl. destruct Hl as (t' & Ht' & Hl).
+      destruct (firstn_in_nth _ _ _ Ht') as (i & Hik & Hi).
+      destruct (H3 i t' Hik Hi) as (A & B & C & E'). destruct Hl as [<-|[<-|[]]]; split; congruence. }
+    apply nodup_app; [exact (IH ltac:(lia))| |].
+    - constructor; [intros [E'|[]]; lia|]. constructor; [intros []|constructor].
+    - intros l Hl [<-|[<-|[]]]; destruct (Hfresh _ Hl) as [A B]; congruence. }
+  rewrite <- (firstn_all D). apply G. lia.
+Qed.
+
+Lemma used_length : length used = 2 * length D.
+Proof.
+  unfold used. generalize D as l. induction l as [|a l IH]; [reflexivity|]. cbn [flat_map app length]. rewrite IH. lia.
+Qed.
+
+(* every label below 2n-2 is one of the two labels of exactly one step *)
+Theorem every_label_consumed_once : 2 <= n ->
+  NoDup used /\ forall l, l < 2 * n - 2 <-> In l used.
+Proof.
+  intros Hn. split; [exact used_nodup|].
+  assert (Hlen : length D = n - 1) by exact (proj1 W).
+  assert (Hinc : incl used (seq 0 (2 * n - 2))).
+  { intros l Hl. unfold used in Hl. rewrite <- (firstn_all D) in Hl.
+    pose proof (used_firstn_bound (Nat.le_refl _) l Hl). apply in_seq. lia. }
+  intros l. split.
+  - intros Hl. apply (@NoDup_length_incl nat used (seq 0 (2 * n - 2)) used_nodup); [rewrite used_length, seq_length; lia|exact Hinc|apply in_seq; lia].
+  - intros Hl. apply Hinc in Hl. apply in_seq in Hl. lia.
+Qed.
+
+(* the label of every observation is in use *)
+Lemma labi_live : forall j, j <= length D -> forall x, x < n -> live n D j (labi n D j x).
+Proof.
+  induction j as [|j IH]; intros Hj x Hx.
+  - cbn [labi]. split; [lia|]. intros i t Hi. lia.
+  - destruct (nth_error D j) as [t|] eqn:Ht; [|apply nth_error_None in Ht; lia].
+    destruct (IH ltac:(lia) x Hx) as [Hb Hnu].
+    destruct W as [_ Hw]. destruct (Hw j t Ht) as (H1 & H2 & _).
+    cbn [labi]. rewrite Ht.
+    destruct ((labi n D j x =? s_c1 t) || (labi n D j x =? s_c2 t)) eqn:E.
+    + split; [lia|]. intros i t' Hi Ht'. destruct (Hw i t' Ht') as (A & B & _). lia.
+    + apply orb_false_iff in E. destruct E as [E1 E2]. apply Nat.eqb_neq in E1. apply Nat.eqb_neq in E2.
+      split; [lia|]. intros i t' Hi Ht'. destruct (Nat.eq_dec i j) as [->|Hne].
+      * rewrite Ht in Ht'. inversion Ht'; subst t'. split; congruence.
+      * apply (Hnu i t'); [lia|exact Ht'].
+Qed.
+
+(* after all steps every observation carries the root label, and the last step has size n *)
+Theorem last_step_size : 2 <= n -> forall t, nth_error D (n - 2) = Some t ->
+  (forall x, x < n -> labi n D (n - 1) x = 2 * n - 2) /\ s_size t = n.
+Proof.
+  intros Hn t Ht.
+  assert (Hlen : length D = n - 1) by exact (proj1 W).
+  destruct (every_label_consumed_once Hn) as [Hnd Hall].
+  assert (Hroot : forall x, x < n -> labi n D (n - 1) x = 2 * n - 2).
+  { intros x Hx. destruct (labi_live (j := n - 1) ltac:(lia) Hx) as [Hb Hnu].
+    destruct (Nat.eq_dec (labi n D (n - 1) x) (2 * n - 2)) as [E|N]; [exact E|exfalso].
+    assert (Hin : In (labi n D (n - 1) x) used) by (apply Hall; lia).
+    unfold used in Hin. apply in_flat_map in Hin. destruct Hin as (t' & Ht' & Hl).
+    apply In_nth_error in Ht'. destruct Ht' as (i & Hi).
+    assert (Hi' : i < n - 1) by (rewrite <- Hlen; apply nth_error_Some; congruence).
+    destruct (Hnu i t' Hi' Hi) as [A B]. destruct Hl as [E|[E|[]]]; congruence. }
+  split; [exact Hroot|].
+  rewrite (size_is_member_count (n - 2) Ht). unfold members.
+  replace (S (n - 2)) with (n - 1) by lia. replace (n + (n - 2)) with (2 * n - 2) by lia.
+  rewrite (filter_count_ext _ (fun _ => true)).
+  - rewrite <- (seq_length n 0) at 2. generalize (seq 0 n) as l. clear.
+    induction l as [|a l IH]; [reflexivity|]. cbn [filter length]. rewrite IH. reflexivity.
+  - intros x Hx. apply in_seq in Hx. rewrite (Hroot x ltac:(lia)). apply Nat.eqb_refl.
 Qed.
 
 End Sizes.
